@@ -4,6 +4,7 @@ import ast
 from ..core.program import norm, own_nodes
 from ..core.world import world
 from ..rules import generic as G
+from ..rules import extra as X
 from ..rules.dispatch import find_chain, lift_chain
 
 EXPLANATION = (
@@ -112,6 +113,7 @@ def rule_load_dispatch(ctx):
 def run(ctx):
     rule_tables(ctx)
     rule_load_dispatch(ctx)
+    X.rule_truncated_quotient(ctx, ("partitura.io.importmei", "partitura.io.importkern"))
     prog = ctx.prog
     exporters = [f for f in prog.functions.values() if f.module.name in (EK, EM) and "#" not in f.qname]
     G.rule_F4d(ctx, exporters, "kern/MEI exporters", floor=10)
